@@ -1,1 +1,134 @@
-From FV.C14 Require Import Model.
+(* C14 — nodal <-> elemental conversion preserves constants, bounds, totals.
+   Statements only (proofs in Proofs.v).  `Im` is the incidence matrix of C13:
+   by FV.C13.Props.C13_incidence_spec, `entry Im i j = true` means "the node at
+   storage position i belongs to the element at position j of elements.ids".
+   Theorems are over the reals (ROps); rounding is modelled as exact. *)
+From Coq Require Import String ZArith Bool Arith List Lia Reals QArith.
+Import ListNotations.
+From FV.C13 Require Import Model ProofsInc Props.
+From FV.C14 Require Import Model Proofs.
+Open Scope nat_scope.
+
+(* ---------------------------------------------------- nodal -> elemental *)
+(* for every Ops (no field law is needed): the element at position j gets the
+   mean of the values stored at the storage positions of its own nodes *)
+Theorem C14_n2e_mean : forall (T : Type) (O : Ops T) m data w res j e c,
+  n2e O m data w = Some res -> nth_error (elems_of (m_blocks m)) j = Some e -> c < w ->
+  exists ps,
+    Forall2 (fun nid p => nth_error (m_nodes m) p = Some nid) (snd e) ps /\
+    cell O res j c = odiv O (osum O (map (fun p => cell O data p c) ps))
+                            (oofnat O (length (snd e))).
+Proof. intros T O. exact (n2e_mean O). Qed.
+
+Theorem C14_n2e_rows : forall (T : Type) (O : Ops T) m data w res,
+  n2e O m data w = Some res -> length res = length (elems_of (m_blocks m)).
+Proof. intros T O. exact (n2e_rows O). Qed.
+
+(* an affine field a.x + b of the node coordinates (x, y, z by storage
+   position) is reproduced at the vertex centroid *)
+Theorem C14_n2e_affine : forall m data w res j e c (x y z : nat -> R) a1 a2 a3 b,
+  n2e ROps m data w = Some res -> nth_error (elems_of (m_blocks m)) j = Some e -> c < w ->
+  snd e <> [] ->
+  (forall p, cell ROps data p c = a1 * x p + a2 * y p + a3 * z p + b)%R ->
+  exists ps,
+    Forall2 (fun nid p => nth_error (m_nodes m) p = Some nid) (snd e) ps /\
+    cell ROps res j c =
+      (a1 * (rsum (map x ps) / INR (length ps)) + a2 * (rsum (map y ps) / INR (length ps))
+       + a3 * (rsum (map z ps) / INR (length ps)) + b)%R.
+Proof. exact n2e_affine. Qed.
+
+(* ------------------------------------------ elemental -> nodal, mode='mean' *)
+(* with the weights wt the call uses (ones / the explicit array / the element
+   metrics): result_i = sum_{e touching i} w_e v_e / sum_{e touching i} w_e;
+   hence constants are preserved and, for positive weights, the result lies
+   between the smallest and the largest touching value; every field width *)
+Theorem C14_e2n_mean : forall m o wm v w res,
+  e2n ROps m false o wm v w = Some res ->
+  exists Im wt, incidence m o = Some Im /\ weights_described ROps m Im wm wt /\
+    length res = bnr Im /\
+    (forall i c, i < bnr Im -> c < w -> wsum Im wt i <> 0%R ->
+       cell ROps res i c =
+       (rsum (map (fun j => if entry Im i j then nth j wt 0 * cell ROps v j c else 0)
+                  (seq 0 (bnc Im))) / wsum Im wt i)%R) /\
+    (forall i c k, i < bnr Im -> c < w -> wsum Im wt i <> 0%R ->
+       (forall j, j < bnc Im -> entry Im i j = true -> cell ROps v j c = k) ->
+       cell ROps res i c = k) /\
+    (forall i c lo hi j0, i < bnr Im -> c < w ->
+       (forall j, j < bnc Im -> entry Im i j = true -> (0 < nth j wt 0)%R) ->
+       j0 < bnc Im -> entry Im i j0 = true ->
+       (forall j, j < bnc Im -> entry Im i j = true -> (lo <= cell ROps v j c <= hi)%R) ->
+       (lo <= cell ROps res i c <= hi)%R).
+Proof. exact e2n_mean_spec. Qed.
+
+(* the sum of positive touching weights is not zero *)
+Theorem C14_weight_sum_positive : forall Im wt i j,
+  (forall j, j < bnc Im -> entry Im i j = true -> (0 < nth j wt 0)%R) ->
+  j < bnc Im -> entry Im i j = true -> (0 < wsum Im wt i)%R.
+Proof. exact wsum_pos. Qed.
+
+(* implicit weights on a one-type mesh are the element metrics, position by
+   position (weights proportional to element size) *)
+Theorem C14_implicit_weights_uniform : forall (T : Type) by_id (mu : Z -> option T) bs t b wt,
+  items bs = [(t, b)] -> implicit_weights by_id mu bs = Some wt ->
+  Forall2 (fun (e : elem) x => mu (fst e) = Some x) (elems_of bs) wt.
+Proof. intros T. exact (@implicit_weights_uniform_spec T). Qed.
+
+(* with the id-based assignment in the 'mix' branch (by_id = true, the
+   proposed fix) this holds for every mesh *)
+Theorem C14_implicit_weights_by_id : forall (T : Type) (mu : Z -> option T) bs wt,
+  implicit_weights true mu bs = Some wt ->
+  Forall2 (fun (e : elem) x => mu (fst e) = Some x) (elems_of bs) wt.
+Proof. intros T. exact (@implicit_weights_by_id_spec T). Qed.
+
+(* ... with the assignment of the unchanged tree (by_id = false) the
+   full-strength statement "the implicit weight at position j is the metric of
+   the element at position j" is FALSE for mixed meshes whose blocks are not
+   stored by ascending id (calculate_element_metrics, 'mix' branch);
+   replayed on the implementation by the harness: finding *)
+Definition blocks_mixed : list block :=
+  [("quad", [(10, [1; 2; 3; 4])]); ("tri", [(30, [2; 5; 3]); (20, [5; 6; 3])])]%Z%string.
+Definition mu_mixed (eid : Z) : option Q :=
+  table_lookup [(10, 4#1); (20, 8#1); (30, 4#1)]%Z%Q eid.
+Theorem C14_implicit_weights_mixed_refuted :
+  exists wt j e x,
+    implicit_weights false mu_mixed blocks_mixed = Some wt /\
+    nth_error (elems_of blocks_mixed) j = Some e /\ mu_mixed (fst e) = Some x /\
+    nth_error wt j <> Some x.
+Proof.
+  exists [4#1; 4#1; 8#1]%Q, 1, (20%Z, [5; 6; 3]%Z), (8#1)%Q.
+  vm_compute. repeat split; try reflexivity. discriminate.
+Qed.
+
+(* ------------------------------------- elemental -> nodal, mode='effective' *)
+(* every element's value is split into equal shares among its nodes, so the
+   grand total is conserved (each column of the weight matrix sums to one),
+   for every field width *)
+Theorem C14_e2n_effective : forall m o wm v w res,
+  e2n ROps m true o wm v w = Some res ->
+  exists Im, incidence m o = Some Im /\ length res = bnr Im /\
+    (forall i c, i < bnr Im -> c < w ->
+       cell ROps res i c =
+       rsum (map (fun j => if entry Im i j then cell ROps v j c / INR (col_count Im j) else 0)%R
+                 (seq 0 (bnc Im)))) /\
+    ((forall j, j < bnc Im -> exists i, i < bnr Im /\ entry Im i j = true) ->
+     forall c, c < w ->
+       rsum (map (fun i => cell ROps res i c) (seq 0 (bnr Im)))
+       = rsum (map (fun j => cell ROps v j c) (seq 0 (bnc Im)))).
+Proof. exact e2n_effective_spec. Qed.
+
+(* ---------------------------------------------------------- non-vacuity *)
+Definition mesh_c14 : mesh :=
+  mkmesh [10; 5; 7; 3; 99; 42]%Z [("tri", [(30, [10; 5; 7]); (20, [5; 7; 3])])]%Z%string.
+Example C14_nonvacuous :
+  ids_ok mesh_c14 = true /\
+  e2n QOps mesh_c14 false false (WExplicit [1#1; 3#1]%Q) [[2#1]; [6#1]]%Q 1
+    = Some [[2#1]; [5#1]; [5#1]; [6#1]; [0#1]; [0#1]]%Q /\
+  e2n QOps mesh_c14 true false WFalse [[3#1]; [6#1]]%Q 1
+    = Some [[1#1]; [3#1]; [3#1]; [2#1]; [0#1]; [0#1]]%Q /\
+  n2e QOps mesh_c14 [[3#1]; [6#1]; [0#1]; [9#1]; [1#1]; [1#1]]%Q 1 = Some [[3#1]; [5#1]]%Q.
+Proof. vm_compute. repeat split; reflexivity. Qed.
+
+Print Assumptions C14_n2e_mean.
+Print Assumptions C14_n2e_affine.
+Print Assumptions C14_e2n_mean.
+Print Assumptions C14_e2n_effective.
